@@ -1525,6 +1525,8 @@ class LATT(Command):
             self.N = int(p[0])
         except ValueError:
             self.N = -1
+        except IndexError:
+            self.N = 1  # LATT N[1]
         self.N_str = self.lattint_to_str[abs(self.N)]
         if self.N > 0:  # centrosymmetric space group:
             self.centric = True
